@@ -54,6 +54,11 @@ K_NEG1 = ("mj_validateReferences accepts -1 for every id / address array (generi
 
 
 _MENTIONED = None
+_SIZE_NAMES = set()      # names of the mjModel size fields (filled by run() before the workers are forked)
+
+
+def _is_size(field: str) -> bool:
+    return field in _SIZE_NAMES or field.startswith("opt.") or field.startswith("header")
 
 
 def _mentioned():
@@ -76,7 +81,7 @@ def _mentioned():
 def _gap_key(field: str, fault: str) -> str:
     """canonical key of a validation gap: by field and by the class of the corrupted value."""
     field = re.sub(r"\[\d+\]|_\d+$", "", field)
-    if not field.startswith("n") and not field.startswith("opt.") and "+" not in field and field not in _mentioned():
+    if not _is_size(field) and "+" not in field and field not in _mentioned():
         return "mj_validateReferences does not check " + field
     try:
         v = int(fault.split()[-1])
@@ -84,7 +89,7 @@ def _gap_key(field: str, fault: str) -> str:
         v = None
     if "+" in field:
         return "loader accepts inconsistent size pair"
-    if v == -1 and not field.startswith("n") and not field.startswith("opt."):
+    if v == -1 and not _is_size(field):
         return K_NEG1
     if v is not None and v < 0:
         return "loader accepts negative " + field
@@ -191,7 +196,7 @@ def _chunk(chunk):
     return total
 
 
-def _roundtrip(ctx, lib, name, m):
+def _roundtrip(ctx, lib, name, m, offs):
     """save -> load -> compare, size bookkeeping, idempotence.  Returns the image."""
     sz = int(lib.mj_sizeModel(m))
     guard = 64
@@ -214,6 +219,13 @@ def _roundtrip(ctx, lib, name, m):
     d = lib.model_diff(m, m2)
     if d is not None:
         ctx.violation("round trip changes " + d, "%s: field %s differs after save/load" % (name, d), dict(model=name))
+    import ctypes
+    for flg in ("flg_gravcomp", "flg_surfacevel", "flg_adhesion"):
+        a = ctypes.c_ubyte.from_address(m.ptr + offs["offsetof_" + flg]).value
+        b = ctypes.c_ubyte.from_address(m2.ptr + offs["offsetof_" + flg]).value
+        if a != b:
+            ctx.violation("round trip changes " + flg, "%s: mjModel.%s is %d before mj_saveModel and %d after "
+                          "mj_loadModelBuffer" % (name, flg, a, b), dict(model=name))
     if int(lib.mj_sizeModel(m2)) != sz:
         ctx.violation("mj_sizeModel changes over a round trip", "%s: %d -> %d" % (name, sz, int(lib.mj_sizeModel(m2))), dict(model=name))
     img3 = np.array(P.save(lib, m2))
@@ -233,12 +245,19 @@ def run(ctx):
         fh.write(B.render())
     jobs = []
     stats = {}
-    for name, m in P.models(lib, offs):
-        img = _roundtrip(ctx, lib, name, m)
+    extra_models = [("adhesion", lib.load_xml(
+        "<mujoco><size memory='64K'/><worldbody><geom type='plane' size='1 1 .1' surfacevel='0 0 0 1 0 0'/>"
+        "<body pos='0 0 .1' gravcomp='1'><freejoint/><geom size='.1' adhesion='2'/></body></worldbody></mujoco>"))]
+    for name, m in P.models(lib, offs) + extra_models:
+        img = _roundtrip(ctx, lib, name, m, offs)
+        if name == "adhesion":
+            m.free()          # round trip only
+            continue
         if not ctx.thorough and name not in ("kitchen", "hinge"):
             m.free()          # quick: round trip only for the other small models
             continue
         lay = P.Layout(lib, m, offs, img)               # raises HarnessError if the derived layout is wrong
+        _SIZE_NAMES.update(nm for nm, _, _, _ in lay.sizes)
         ndiff = lay.differential_check(lib, m, img)
         size = len(img)
         sizes = {nm: v for nm, o, w, v in lay.sizes}
@@ -286,11 +305,15 @@ def run(ctx):
             fh.write("\n".join(plan) + "\n")
         shard = 1500 if big else 2500
         for lo in range(0, len(plan), shard):
-            # the body-less model trips UBSan's nonnull check (mju_copy(NULL, NULL, 0)) already unmodified: table only
-            jobs.append((exe, name, mjb, pl, table, lo, min(len(plan), lo + shard), 0 if name == "empty" else 1))
+            # two models trip UBSan's nonnull check already unmodified (empty: mju_copy(NULL, NULL, 0); kitchen: its
+            # first-party plugins have no plugin state and _resetData does memcpy(NULL, p, 0)): bounds table only there,
+            # the use of the accepted model (makeData / forward / step / names) is exercised on the other models
+            jobs.append((exe, name, mjb, pl, table, lo, min(len(plan), lo + shard), 0 if name in ("empty", "kitchen") else 1))
         m.free()
     core.pmap(ctx, _chunk, jobs, nchunks=len(jobs))
     ctx.extra["models"] = stats
+    ctx.extra["violation_keys"] = sorted(k for k, _, _ in ctx.violations)
+    ctx.extra["known_keys_hit"] = sorted(k for k, _ in ctx.known_hits)
     ctx.extra["bounds_table_rows"] = len(B.ROWS)
     ctx.rule = ("6 models (kitchen: 485/486 model arrays non-empty; empty, hinge, chain2, ballfree, tendon) x {identity; every "
                 "truncation length; every header int / size field / mjOption int / element of every int or mjtSize array x "
